@@ -146,7 +146,11 @@ def subchecks(tier):
     wj = {"routing_objects": 0.3, "self_loops": 0.4, "priorities": 0.3, "capacity": 0.3, "discipline": 0.5, "batching": 0.2, "reneging": 0.2, "inf": 0.2}
     near = S.Profile(list(wj), weights=wj, numeric="jitter", max_nodes=3, max_classes=2, plans=("max_time",), horizon=(3.0, 12.0), budget=800,
                      resumptions=(3, 6), load="heavy", finite_arrivals=0.2)
-    return [SubCheck("split", execute, strategy=S.netspec(prof), n={"quick": 4800, "thorough": 30000}, kind="metamorphic",
+    region = common.region_profile("C16", numeric="cont", resumptions=(3, 6), horizon=(6.0, 16.0), more_weights={"server_priority": 0.2})
+    return [SubCheck("sched_blocked", execute, strategy=S.netspec(region), n={"quick": 4800, "thorough": 30000}, kind="metamorphic",
+                     rule="same relation in the pre-emptive schedules x blocking region (zero-server shifts, customers interrupted while blocked and released from "
+                          "servers that have left), several stops per run, continuous (tie-free) times"),
+            SubCheck("split", execute, strategy=S.netspec(prof), n={"quick": 4800, "thorough": 30000}, kind="metamorphic",
                      rule="unsplit vs split simulate_until_max_time of the same (spec, seed)"),
             SubCheck("near_ties", execute, strategy=S.netspec(near), n={"quick": 4800, "thorough": 30000}, kind="metamorphic",
                      rule="same relation on grid times with 1e-13-scale jitter: many events within 1e-12 of each other but never equal (exact ties are discarded); random choices (SIRO, probabilistic routing) make any extra random draw visible")]
